@@ -13,7 +13,7 @@
    and l1 after.  [eser] is the never re-used serial number of one registration ("the timer");
    [earm e] is the time e was registered or last re-armed, [enext e] its deadline (m_next). *)
 From OlaBase Require Import Bytes.
-From C16 Require Import Gen Model TimeVal Proofs Invariant Invariant2 Timers Due PModel PProofs PClose PAgree PAgreeW PHaz PWf PLive PAbs PSimS PSimE PSim PReg.
+From C16 Require Import Gen Model TimeVal Proofs Invariant Invariant2 Timers Due PModel PProofs PClose PAgree PAgreeW PHaz PWf PLive PAbs PSimS PSimE PSim PReg PRefused.
 Local Open Scope N_scope.
 
 Definition allocator_ok (alloc : list N -> N -> N) : Prop :=
@@ -406,6 +406,28 @@ Theorem c16_close_reported_history :
 Proof. exact (fun c ops d desc be G L LM NR => p_close_reported_history c ops d desc be NR LM G L). Qed.
 Print Assumptions c16_close_reported_history.
 
+(* SelectPoller alone: the same for ANY connected descriptor, delete_on_close or not, and without the bound on the
+   number of descriptors or the "not refused" premise (both are epoll matters).  For EPoller the delete_on_close
+   case stays out: EPoller never deletes such a descriptor (noted difference, not a property-level defect), and the
+   history-level invariant PReg.p_we_run is only proved for descriptors that are not delete_on_close. *)
+Theorem c16_close_reported_history_select :
+  forall (c : p_cfg) (ops : list p_op) (d : nat) (desc : bool),
+    (forall d' a, In a (pc_rs (p_get c d') ++ pc_ws (p_get c d') ++ pc_cs (p_get c d')) -> p_act_target a <> d) ->
+    d < length c -> pc_conn (p_get c d) = true ->
+    let s := p_run false c ops in
+    st_regr s d = true -> st_closed s d = true -> st_pend s d = [] -> st_onclose s d = true -> st_del s d = false ->
+    exists e, In e (st_log (p_step c s (POPoll desc))) /\ le_d e = d /\ le_kind e = PKClose.
+Proof. exact p_close_reported_history_select. Qed.
+Print Assumptions c16_close_reported_history_select.
+
+(* non-vacuous for a delete_on_close descriptor: the premises hold after register / data / drain / peer hang-up *)
+Example c16_close_reported_history_select_premises :
+  (fun s => (st_regr s 0, st_closed s 0, st_pend s 0, st_onclose s 0, st_del s 0, pc_doc (p_get
+     [Build_p_dcfg PSock true true 9 [] [] []] 0)))
+    (p_run false [Build_p_dcfg PSock true true 9 [] [] []] [POAddR 0; POWrite 0 [4%N]; POPoll true; POClosePeer 0])
+  = (true, true, [], true, false, true).
+Proof. cbv beta; vm_compute; reflexivity. Qed.
+
 Example c16_close_reported_history_premises :
   forall be,
   (fun s => (st_regr s 0, st_closed s 0, st_pend s 0, st_onclose s 0, st_del s 0))
@@ -586,6 +608,49 @@ Proof.
   unfold p_ep_flags in FA. rewrite R in FA. discriminate.
 Qed.
 Print Assumptions c16_refused_never_ready.
+
+(* The full statement, over whole runs of the EPoller model from the initial state (any configuration, any scripts,
+   any operations): no callback is ever invoked for a descriptor whose registration the epoll interface refuses ... *)
+Theorem c16_refused_never_called :
+  forall (c : p_cfg) (ops : list p_op) (e : p_ev),
+    In e (p_log (p_run true c ops)) -> p_refused c (le_d e) = false.
+Proof. exact p_refused_never_called. Qed.
+Print Assumptions c16_refused_never_called.
+
+(* ... and every other descriptor d (under the per-descriptor guard of c16_backends_agree_per_descriptor) is served,
+   by either back-end, exactly as in the run in which every Add of r is replaced in place by a zero-byte write, i.e.
+   as if the refused Add had not happened: same callbacks, same bytes, same registration flags, same operation
+   indices.  (The statement does not need r to be refused: on epoll the refused Add is the case of interest, on
+   select it says that registrations of one descriptor do not disturb another.)  More generally any two operation
+   lists that differ only in non-poll operations aimed at descriptors other than d serve d identically. *)
+Theorem c16_refused_add_invisible :
+  forall (c : p_cfg) (r d : nat) (ops : list p_op) (be : bool),
+    d <> r -> p_d_ok c d = true -> d < length c -> length c <= p_max_events -> p_ops_ok_d c d ops = true ->
+    p_proj d (p_log (p_run be c ops)) = p_proj d (p_log (p_run be c (p_without_adds r ops))).
+Proof. exact p_refused_add_invisible. Qed.
+Print Assumptions c16_refused_add_invisible.
+
+Theorem c16_other_ops_invisible :
+  forall (c : p_cfg) (d : nat) (ops ops' : list p_op) (be : bool),
+    p_d_ok c d = true -> d < length c -> length c <= p_max_events ->
+    p_ops_ok_d c d ops = true -> p_ops_ok_d c d ops' = true ->
+    Forall2 (fun o o' => o = o' \/ (p_op_other d o = true /\ p_op_other d o' = true)) ops ops' ->
+    p_proj d (p_log (p_run be c ops)) = p_proj d (p_log (p_run be c ops')).
+Proof. exact p_other_ops_invisible. Qed.
+Print Assumptions c16_other_ops_invisible.
+
+(* what "replaced in place" is, and a run in which the descriptor registered after the refused one gets its data *)
+Example c16_ex_without_adds :
+  p_without_adds 0 [POAddR 0; POAddR 1; POAddW 0; POWrite 0 [1%N]; POPoll false] =
+    [POWrite 0 []; POAddR 1; POWrite 0 []; POWrite 0 [1%N]; POPoll false].
+Proof. reflexivity. Qed.
+Example c16_ex_refused_add_invisible :
+  let c := [Build_p_dcfg PRef false false 9 [] [] []; Build_p_dcfg PPipe false false 9 [] [] []] in
+  let ops := [POAddR 0; POAddR 1; POWrite 0 [1%N]; POWrite 1 [2%N]; POPoll false; PORemR 0; POPoll false] in
+  p_d_ok c 1 = true /\ p_ops_ok_d c 1 ops = true /\
+  map (fun e => (le_op e, le_d e, le_bytes e)) (p_log (p_run true c ops)) = [(4, 1, [2%N])] /\
+  map (fun e => (le_op e, le_d e, le_bytes e)) (p_log (p_run true c (p_without_adds 0 ops))) = [(4, 1, [2%N])].
+Proof. vm_compute. repeat split; reflexivity. Qed.
 
 Example c16_ex_refused :
   let c := [Build_p_dcfg PRef false false 9 [] [] []; Build_p_dcfg PPipe false false 9 [] [] []] in
